@@ -2,6 +2,7 @@
    read from stdin (one per line) and prints one canonical result per line. *)
 open N2model
 open Conv
+type string = Stdlib.String.t
 
 let canon_impl_line l = show_outcome hex_of_bytes (canon_impl (bytes_of_hex l))
 let canon_line l = show_outcome hex_of_bytes (canon (bytes_of_hex l))
@@ -14,8 +15,52 @@ let sem_line l =
     (String.concat "," (List.map hex_of_bytes (List.rev names)))
     (ends_dirlike p)
 
+let words l = List.filter (fun s -> s <> "") (String.split_on_char ' ' (String.trim l))
+
+let show_depmap m =
+  String.concat ";"
+    (List.map (fun (t, ds) -> hex_of_bytes t ^ ":" ^ String.concat "," (List.map hex_of_bytes ds)) m)
+
+let depfile_line fixed l =
+  show_outcome show_depmap ((if fixed then depfile_parse else depfile_parse_pinned) (bytes_of_hex l))
+
+let showinc_line fixed l =
+  let (incs, out) = (if fixed then extract_showincludes else extract_showincludes_pinned) (bytes_of_hex l) in
+  "ok " ^ String.concat "," (List.map hex_of_bytes incs) ^ "|" ^ hex_of_bytes out
+
+let lastline_line l = "ok " ^ hex_of_bytes (find_last_line (bytes_of_hex l))
+
+let taskmsg_line fixed l =
+  match words l with
+  | [m; secs; cols] ->
+    show_outcome hex_of_bytes
+      ((if fixed then task_message else task_message_pinned)
+         (bytes_of_hex m) (n_of_int (int_of_string secs)) (nat_of_int (int_of_string cols)))
+  | _ -> "bad"
+
+let truncate_line l =
+  match words l with
+  | [m; max] -> "ok " ^ hex_of_bytes (truncate (bytes_of_hex m) (nat_of_int (int_of_string max)))
+  | _ -> "bad"
+
+let bar_line l =
+  match List.map int_of_string (words l) with
+  | [w; r; q; run; d; f; size] ->
+    "ok " ^ hex_of_bytes
+      (progress_bar { c_want = n_of_int w; c_ready = n_of_int r; c_queued = n_of_int q;
+                      c_running = n_of_int run; c_done = n_of_int d; c_failed = n_of_int f }
+         (n_of_int size))
+  | _ -> "bad"
+
+let status_line l = "ok " ^ string_of_int (int_of_n (decode_status (n_of_int (int_of_string (String.trim l)))))
+
 let suites : (string * (string -> string)) list =
-  [ ("canon_impl", canon_impl_line); ("canon", canon_line); ("canon_sem", sem_line) ]
+  [ ("canon_impl", canon_impl_line); ("canon", canon_line); ("canon_sem", sem_line);
+    ("depfile", depfile_line true); ("depfile_pinned", depfile_line false);
+    ("showincludes", showinc_line true); ("showincludes_pinned", showinc_line false);
+    ("lastline", lastline_line);
+    ("taskmsg", taskmsg_line true); ("taskmsg_pinned", taskmsg_line false);
+    ("truncate", truncate_line); ("bar", bar_line); ("status", status_line) ]
 
 let () =
   let suite = if Array.length Sys.argv > 1 then Sys.argv.(1) else "" in
